@@ -100,11 +100,14 @@ func impl(in hv.Val) hv.Val {
 		w.(bfe_http.Flusher).Flush() // one HEADERS frame; blocks while the client does not read
 		<-release
 	})
+	closeNotify := make(chan bool) // closed by op [9]: graceful shutdown -> GOAWAY(NO_ERROR)
+	inGoAway := false
 	cc, srv := net.Pipe()
 	defer cc.Close()
 	go (&bfe_http2.Server{}).ServeConn(srv, &bfe_http2.ServeConnOpts{
-		BaseConfig: &bfe_http.Server{ReadTimeout: 300 * time.Second, WriteTimeout: 300 * time.Second},
-		Handler:    h,
+		BaseConfig: &bfe_http.Server{ReadTimeout: 300 * time.Second, WriteTimeout: 300 * time.Second,
+			CloseNotifyCh: closeNotify, GracefulShutdownTimeout: 30 * time.Minute},
+		Handler: h,
 	})
 	cl := &client{c: cc}
 	select {
@@ -209,6 +212,14 @@ func impl(in hv.Val) hv.Val {
 			fr.WriteHeaders(bfe_http2.HeadersFrameParam{StreamID: uint32(hv.AsInt(l[1])), BlockFragment: hb.Bytes(), EndStream: true, EndHeaders: true})
 		case 6:
 			fr.WriteRSTStream(uint32(hv.AsInt(l[1])), bfe_http2.ErrCodeCancel)
+		case 9: // graceful shutdown
+			if !inGoAway {
+				close(closeNotify)
+				inGoAway = true
+				if s, ok := cl.waitFor(func(s bfe_http2.VerifC37State) bool { return s.InGoAway }); !ok && !s.Closed {
+					return hv.Err(8)
+				}
+			}
 		case 8: // overflows the send window of an open stream: stream error, the server resets the stream
 			fr.WriteWindowUpdate(uint32(hv.AsInt(l[1])), 1<<31-1)
 		case 7:
@@ -233,7 +244,7 @@ func impl(in hv.Val) hv.Val {
 			continue
 		}
 		cl.send(b.Bytes())
-		if tag == 5 {
+		if tag == 5 && !inGoAway { // (requests after GOAWAY are ignored by the server)
 			// the handler's HEADERS frame reaches the scheduler asynchronously: wait for it
 			want := streamQ + 1
 			if s, ok := cl.waitFor(func(s bfe_http2.VerifC37State) bool { return s.StreamQ == want }); !ok && !s.Closed {
@@ -280,6 +291,8 @@ func drain(cl *client, fr *bfe_http2.Framer, b *bytes.Buffer, wantHeaders int) h
 						sawMarker = true
 					}
 				}
+			case *bfe_http2.GoAwayFrame:
+				tags = append(tags, hv.I(-2000000000))
 			case *bfe_http2.RSTStreamFrame:
 				tags = append(tags, hv.I(-int(f.StreamID)))
 			case *bfe_http2.WindowUpdateFrame:
@@ -328,7 +341,17 @@ func gen(r *hv.Rng, i int, tier string) (string, hv.Val) {
 		nFlood = 1
 	}
 	nops := r.Range(1, 7)
+	goAwayAt := -1 // a third of the cases: graceful shutdown (GOAWAY NO_ERROR) somewhere in the script
+	if r.Chance(1, 3) {
+		goAwayAt = r.Intn(nops)
+	}
 	for j := 0; j < nops; j++ {
+		if j == goAwayAt {
+			ops = append(ops, hv.L{hv.I(9)})
+			if class == "small" {
+				class = "goaway"
+			}
+		}
 		switch c := r.Intn(12); {
 		case c < 5:
 			addFlood(r.Range(0, 40))
